@@ -547,7 +547,7 @@ func valueNonNilAt(v ssa.Value, at *ssa.BasicBlock, depth int) bool {
 }
 
 func checkC06(c *Ctx, r *Report) {
-	r.Rules = []string{"E1 no dropped error", "E1' no swallowed error", "E2 checked close of closers over a fallible sink", "D9 invalid settings end in an error", "E3 CLI failure edge removes the target and exits non-zero", "E2m closers over in-memory sinks completed before use", "E5 file references reach their reader as configured", "E1-dep dependency container writers (thorough)", "D9 required architecture (deb, rpm, apk) evaluated with literal tables modelled", "E1'-cell an error kept in a memory cell is not overwritten by a later call's result on a path the failure takes", "E6-changelog-stat the changelog file is checked with os.Stat before the lenient parser reads it", "E7-short-write direct writes to the external destination use the byte count", "valid-F13-width / valid-F14-name-fixpoint invalid settings are rejected, not reinterpreted (imported from C14, C15)", "E8-scanner-err a line scanner over a file or stream has its error consulted", "E1-built an error value that is built is used (returned, stored, passed on)", "E1'-defer a deferred closure stores into the function's error result only where that result is still nil (or from a value built on it)", "read-K-key-read the configured key file is read on every signing call (rule of C10)"}
+	r.Rules = []string{"E1 no dropped error", "E1' no swallowed error", "E2 checked close of closers over a fallible sink", "D9 invalid settings end in an error", "E3 CLI failure edge removes the target and exits non-zero", "E2m closers over in-memory sinks completed before use", "E5 file references reach their reader as configured", "E1-dep dependency container writers (thorough)", "D9 required architecture (deb, rpm, apk) evaluated with literal tables modelled", "E1'-cell an error kept in a memory cell is not overwritten by a later call's result on a path the failure takes", "E6-changelog-stat the changelog file is checked with os.Stat before the lenient parser reads it", "E7-short-write direct writes to the external destination use the byte count", "valid-F13-width / valid-F14-name-fixpoint invalid settings are rejected, not reinterpreted (imported from C14, C15)", "E8-scanner-err a line scanner over a file or stream has its error consulted", "E1-built an error value that is built is used (returned, stored, passed on)", "fixture (positive examples for E1'-defer, E1-built, E8-scanner-err)", "E1'-defer a deferred closure stores into the function's error result only where that result is still nil (or from a value built on it)", "read-K-key-read the configured key file is read on every signing call (rule of C10)"}
 	r.Explanation = "Error-discipline analysis over go/ssa on the packaging call graph of all five packagers, the CLI, the signing helpers and the parser: (E1) every call whose callee returns an error has that result used, unless it falls under an enumerated idiom (reader-side Close, write into an in-memory buffer or hash decided by an interprocedural sink-root analysis, diagnostics, deferred cleanup Close discharged by E2, a named exception); (E1') from the failure edge of an `err != nil` test no path reaches a return with a nil error; (E2) every closer created over a fallible (caller-supplied) sink is closed/flushed, non-deferred and with its error used, before every return that may report success — or by a deferred closure that stores the Close error into the named result; (D9) the invalid cell of every finite setting evaluates to an error-only return set; (E3) the CLI's packaging-failure edge passes through os.Remove(target) and returns the error, and the root command exits with a non-zero constant. All paths and call sites of the code are covered, which is what 'every write index k' quantifies over; no fault is injected or executed."
 	r.Explanation += " (E2m) closers layered over an in-memory buffer are completed (non-deferred Close/Flush, also as the exit of a loop over a literal list of closers, also when the closer comes from a module factory) before every success-capable return and every read of the buffer. E1' also covers the error parameter of a tree-walk callback. (E5) a configuration field that names a file the packagers read may be assigned by the parser's environment expansion only if it is documented as expandable."
 	r.Explanation += " (D9-arch) nfpm.PrepareForPackager is evaluated for deb, rpm and apk with neither the general nor the format's own architecture set and every other setting unknown: every live return carries an error (lookups in map literals built in the function are modelled)."
@@ -820,6 +820,7 @@ func checkC06(c *Ctx, r *Report) {
 	checkScannerErr(c, r)
 	checkDeferredOverwrite(c, r)
 	checkBuiltErrorsUsed(c, r)
+	checkFixtureC06(r)
 	// an invalid setting that is silently reinterpreted instead of rejected:
 	// an epoch beyond the width it is stored in (rule of C14), a package name
 	// the file name's sanitiser would change (rule of C15)
@@ -2946,5 +2947,29 @@ func checkBuiltErrorsUsed(c *Ctx, r *Report) {
 	r.Pass("E1-built", "error values built in the module have a use", "-", fmt.Sprintf("%d error values built (conversions to error, fmt.Errorf, errors.New); those without a use are listed separately", n))
 	if n < 100 {
 		r.Fail("instance-floor", "E1-built", "-", fmt.Sprintf("only %d error values built in the module (expected >= 100)", n))
+	}
+}
+
+// checkFixtureC06: E1'-defer, E1-built and E8-scanner-err expect no violating
+// instance on nfpm; each is run on the positive fixture on every run and must
+// report its seeded example there.
+func checkFixtureC06(r *Report) {
+	fx, err := loadFixture(verifDir)
+	if err != nil {
+		r.Fail("fixture", "load", "-", "the positive fixture could not be loaded: "+err.Error())
+		return
+	}
+	fr := newReport("fixture")
+	checkDeferredOverwrite(fx, fr)
+	checkBuiltErrorsUsed(fx, fr)
+	checkScannerErr(fx, fr)
+	found := map[string]bool{}
+	for _, o := range fr.Obls {
+		if !o.OK && o.Rule != "instance-floor" {
+			found[o.Rule] = true
+		}
+	}
+	for _, k := range []string{"E1'-defer", "E1-built", "E8-scanner-err"} {
+		r.Check(found[k], "fixture", "positive example: "+k, "analyzer/fixture/fixture.go", "the scanner for this zero-count rule must match its seeded example on every run")
 	}
 }
